@@ -94,6 +94,20 @@ def gen_req_case(rng, timed=False, allow_opt_change=False, allow_cancel_send=Fal
                 L.append("inject p%d [R%d]%s" % (p, nreq - 1, g.body("bb")))       # the first one matches, the others are duplicates
             if not early:
                 L.append("recvnb %s" % t if rng.random() < 0.5 else "recv %s %s" % (t, g.aio()))
+        elif r < 0.19 and live:
+            # an exchange whose receive is cancelled (or times out) after the request went out: the request is
+            # aborted, a late reply must be discarded and a further receive fail with NNG_ESTATE
+            t = g.tgt()
+            for p in range(g.npipes):
+                L.append("sent p%d" % p)
+            a = g.aio(); L.append("send %s %s - %s" % (t, a, g.body("aa"))); last_send_aio[t] = a; nreq += 1
+            for p in range(g.npipes):
+                L.append("sent p%d" % p)
+            ra = g.aio(); L.append("recv %s %s" % (t, ra)); recv_after_send[t] = True
+            L.append("cancel %s" % ra)
+            for p in range(g.npipes):
+                L.append("inject p%d [R%d]%s" % (p, nreq - 1, g.body("bb")))
+            L.append("recvnb %s" % t if rng.random() < 0.5 else "recv %s %s" % (t, g.aio()))
         elif r < 0.26:
             t = g.tgt()
             if rng.random() < 0.7:
@@ -403,6 +417,10 @@ def oracle_req(case, obs, raw, c12=False, stats=None):
             for tg, pa in list(pend_recv.items()):
                 if pa == a:
                     pend_recv[tg] = None
+            # a cancelled (or timed-out) receive aborts the request: replies to it are "replies to cancelled
+            # requests" from now on (a new request on the same target in this very op has replaced it already)
+            if a in recv_target and rv in (20, 5) and not (op in ("send", "sendnb") and tgt == recv_target[a]):
+                cur[recv_target[a]] = None
         for tg, body, hdr in got:
             if stats is not None:
                 stats["deliveries"] = stats.get("deliveries", 0) + 1
